@@ -1,4 +1,5 @@
 import Driver.Bitmap
+import Driver.Strings
 open Driver
 
 def main (args : List String) : IO UInt32 := do
@@ -7,6 +8,9 @@ def main (args : List String) : IO UInt32 := do
   match args with
   | ["bitmap"] =>
     lineLoop stdin stdout (BitmapEng.init 8) BitmapEng.step
+    return 0
+  | ["strings"] =>
+    lineLoop stdin stdout () StringsEng.step
     return 0
   | _ =>
     IO.eprintln "usage: hwmodel <engine>"
